@@ -377,6 +377,12 @@ def main():
                 violations.append((write_replay(pid, payload), " no-failing-input-found"))
 
     for er in extra_results:
+        for cls in er.get("known_classes", []):
+            for k in known:
+                if k.get("class") == cls:
+                    rest = " ".join(w for w in k["_line"][len("finding:"):].split() if not w.startswith("property="))
+                    known_lines.append("KNOWN-FINDING: property=%s %s" % (pid, rest))
+    for er in extra_results:
         for v in er.get("violations", []):
             violations.append((write_replay(pid, dict(property=pid, kind="extra", detail=v)), v.get("suffix", "") if isinstance(v, dict) else ""))
 
